@@ -211,3 +211,371 @@ theorem strptime_ymd (y m d : Nat) (h : ValidDate y m d) :
   simp [field?, List.find?, field_beq, ny, nm, nd, e1, e2]
 
 end Pvl
+
+namespace Pvl
+open Py Enc
+
+/-! ### zero-padded fields in general -/
+
+theorem digitsVal_zeros (k : Nat) (ds : Str) : digitsVal (List.replicate k 48 ++ ds) 0 = digitsVal ds 0 := by
+  induction k with
+  | zero => simp
+  | succ k ih =>
+    simp only [List.replicate_succ, List.cons_append, digitsVal, List.foldl_cons] at ih ⊢
+    simpa using ih
+
+theorem allDigits_pad (n w : Nat) : AllDigits (pad n w) := by
+  rw [pad_eq, ← natStr_eq]
+  intro c hc
+  rcases List.mem_append.mp hc with h | h
+  · simp at h; simp [h.2, isDigit]
+  · exact allDigits_natStr n c h
+
+theorem pad_ne_nil (n w : Nat) : pad n w ≠ [] := by
+  rw [pad_eq, ← natStr_eq]
+  intro h
+  have := (List.append_eq_nil_iff.mp h).2
+  exact natStr_ne_nil n this
+
+/-- `int(f"{n:0{w}d}") = n` -/
+theorem natOf_pad (n w : Nat) : natOf (pad n w) = some n := by
+  unfold natOf
+  rw [int10_digits _ (pad_ne_nil n w) (allDigits_pad n w)]
+  rw [pad_eq, ← natStr_eq, digitsVal_zeros, digitsVal_natStr]
+  simp
+
+theorem length_pad (n w : Nat) (h : n < 10 ^ w) (hw : 0 < w) : (pad n w).length = w := by
+  rw [pad_eq]
+  have : (digits10 n).length ≤ w := by
+    simp only [digits10, List.length_map]
+    exact (Nat.length_toDigits_le_iff (by omega) hw).mpr h
+  simp; omega
+
+/-- a run of `[0-9]` classes consumes exactly a digit string of that length -/
+theorem matchCCs_digits (ds rest : Str) (h : AllDigits ds) :
+    matchCCs (List.replicate ds.length (dg 0 9)) (ds ++ rest) = some (ds, rest) := by
+  induction ds with
+  | nil => simp [matchCCs]
+  | cons c r ih =>
+    have hc := h c (by simp)
+    simp only [isDigit, Bool.and_eq_true, decide_eq_true_eq] at hc
+    have : CC.ok (dg 0 9) c = true := by simp [dg, ccr]; omega
+    simp [List.replicate_succ, matchCCs, this, ih (fun x hx => h x (by simp [hx]))]
+
+end Pvl
+
+namespace Pvl
+open Py Enc
+
+/-! ### `strptime` on the time spellings `HH:MM[:SS[.ffffff]]` -/
+
+def litColon : Item := ⟨.none, [[.lit 58]]⟩
+def litDot : Item := ⟨.none, [[.lit 46]]⟩
+def fmtHM : Str := [37, 72, 58, 37, 77]
+def fmtHMS : Str := [37, 72, 58, 37, 77, 58, 37, 83]
+def fmtHMSf : Str := [37, 72, 58, 37, 77, 58, 37, 83, 46, 37, 102]
+
+theorem compile_HM : compileFmt fmtHM = some [itemH, litColon, itemM] := by
+  simp [fmtHM, compileFmt, litColon]
+theorem compile_HMS : compileFmt fmtHMS = some [itemH, litColon, itemM, litColon, itemS] := by
+  simp [fmtHMS, compileFmt, litColon]
+theorem compile_HMSf :
+    compileFmt fmtHMSf = some [itemH, litColon, itemM, litColon, itemS, litDot, itemf] := by
+  simp [fmtHMSf, compileFmt, litColon, litDot]
+
+theorem matchItems_cons (it : Item) (r : List Item) (s : Str) :
+    matchItems (it :: r) s = matchAlts it.field it.alts r s := by
+  rw [matchItems]
+
+theorem matchItems_nil (s : Str) : matchItems [] s = some ([], s) := by
+  rw [matchItems]
+
+theorem matchAlts_first (f : Field) (a : Alt) (as : List Alt) (r : List Item) (s m rest fin : Str)
+    (caps : List (Field × Str)) (h1 : matchCCs a s = some (m, rest))
+    (h2 : matchItems r rest = some (caps, fin)) :
+    matchAlts f (a :: as) r s = some ((f, m) :: caps, fin) := by
+  rw [matchAlts]; simp [h1, h2]
+
+theorem matchAlts_skip (f : Field) (a : Alt) (as : List Alt) (r : List Item) (s : Str)
+    (h1 : matchCCs a s = none) : matchAlts f (a :: as) r s = matchAlts f as r s := by
+  rw [matchAlts]; simp [h1]
+
+theorem lit_field (ch : Nat) (hc : lowerAscii1 ch = ch) (r : List Item) (rest fin : Str)
+    (caps : List (Field × Str)) (hk : matchItems r rest = some (caps, fin)) :
+    matchItems (⟨.none, [[.lit ch]]⟩ :: r) (ch :: rest) = some ((.none, [ch]) :: caps, fin) := by
+  rw [matchItems_cons]
+  exact matchAlts_first _ _ _ _ _ [ch] rest fin caps (by simp [matchCCs, CC.ok]) hk
+
+/-- `%H` on a zero-padded hour -/
+theorem H_field (h : Nat) (hh : h < 24) (r : List Item) (rest fin : Str) (caps : List (Field × Str))
+    (hk : matchItems r rest = some (caps, fin)) :
+    matchItems (itemH :: r) (pad h 2 ++ rest) = some ((.H, pad h 2) :: caps, fin) := by
+  rw [matchItems_cons, pad2 h (by omega)]
+  have hd := isDecimal_digit (h % 10) (Nat.mod_lt _ (by omega))
+  by_cases ha : 20 ≤ h
+  · have e1 : h / 10 = 2 := by omega
+    have e2 : h % 10 ≤ 3 := by omega
+    exact matchAlts_first _ _ _ _ _ _ rest fin caps (by simp [matchCCs, dg, ccr, e1]; omega) hk
+  · have e1 : h / 10 = 0 ∨ h / 10 = 1 := by omega
+    unfold itemH
+    rw [matchAlts_skip _ _ _ _ _ (by rcases e1 with e1 | e1 <;> simp [matchCCs, dg, ccr, e1])]
+    exact matchAlts_first _ _ _ _ _ _ rest fin caps
+      (by rcases e1 with e1 | e1 <;> simp [matchCCs, dg, ccr, e1, CC.ok, hd]) hk
+
+/-- `%M` on a zero-padded minute -/
+theorem M_field (m : Nat) (hm : m < 60) (r : List Item) (rest fin : Str) (caps : List (Field × Str))
+    (hk : matchItems r rest = some (caps, fin)) :
+    matchItems (itemM :: r) (pad m 2 ++ rest) = some ((.M, pad m 2) :: caps, fin) := by
+  rw [matchItems_cons, pad2 m (by omega)]
+  have hd := isDecimal_digit (m % 10) (Nat.mod_lt _ (by omega))
+  have e1 : m / 10 ≤ 5 := by omega
+  exact matchAlts_first _ _ _ _ _ _ rest fin caps (by simp [matchCCs, dg, ccr, CC.ok, hd]; omega) hk
+
+/-- `%S` on a zero-padded second below 60 -/
+theorem S_field (s : Nat) (hs : s < 60) (r : List Item) (rest fin : Str) (caps : List (Field × Str))
+    (hk : matchItems r rest = some (caps, fin)) :
+    matchItems (itemS :: r) (pad s 2 ++ rest) = some ((.S, pad s 2) :: caps, fin) := by
+  rw [matchItems_cons, pad2 s (by omega)]
+  have hd := isDecimal_digit (s % 10) (Nat.mod_lt _ (by omega))
+  have e1 : s / 10 ≤ 5 := by omega
+  unfold itemS
+  rw [matchAlts_skip _ _ _ _ _ (by simp [matchCCs, dg, ccr]; omega)]
+  exact matchAlts_first _ _ _ _ _ _ rest fin caps (by simp [matchCCs, dg, ccr, CC.ok, hd]; omega) hk
+
+/-- `%f` on six digits -/
+theorem f_field (us : Nat) (hus : us < 1000000) (r : List Item) (rest fin : Str) (caps : List (Field × Str))
+    (hk : matchItems r rest = some (caps, fin)) :
+    matchItems (itemf :: r) (pad us 6 ++ rest) = some ((.f, pad us 6) :: caps, fin) := by
+  rw [matchItems_cons]
+  have hl := length_pad us 6 (by omega) (by omega)
+  have hm := matchCCs_digits (pad us 6) rest (allDigits_pad us 6)
+  rw [hl] at hm
+  have : itemf.alts = List.replicate 6 (dg 0 9) :: [List.replicate 5 (dg 0 9), List.replicate 4 (dg 0 9),
+      List.replicate 3 (dg 0 9), List.replicate 2 (dg 0 9), List.replicate 1 (dg 0 9)] := by rfl
+  rw [this]
+  exact matchAlts_first _ _ _ _ _ _ rest fin caps hm hk
+
+end Pvl
+
+namespace Pvl
+open Py Enc
+
+theorem colon_field (r : List Item) (rest fin : Str) (caps : List (Field × Str))
+    (hk : matchItems r rest = some (caps, fin)) :
+    matchItems (litColon :: r) (58 :: rest) = some ((.none, [58]) :: caps, fin) :=
+  lit_field 58 (by decide) r rest fin caps hk
+
+theorem dot_field (r : List Item) (rest fin : Str) (caps : List (Field × Str))
+    (hk : matchItems r rest = some (caps, fin)) :
+    matchItems (litDot :: r) (46 :: rest) = some ((.none, [46]) :: caps, fin) :=
+  lit_field 46 (by decide) r rest fin caps hk
+
+/-- `HH:MM` followed by anything -/
+theorem match_HM (h mi : Nat) (hh : h < 24) (hm : mi < 60) (rest : Str) :
+    matchItems [itemH, litColon, itemM] (pad h 2 ++ 58 :: (pad mi 2 ++ rest)) =
+      some ([(.H, pad h 2), (.none, [58]), (.M, pad mi 2)], rest) :=
+  H_field h hh _ _ _ _ (colon_field _ _ _ _ (M_field mi hm _ _ _ _ (matchItems_nil rest)))
+
+/-- `HH:MM:SS` followed by anything -/
+theorem match_HMS (h mi s : Nat) (hh : h < 24) (hm : mi < 60) (hs : s < 60) (rest : Str) :
+    matchItems [itemH, litColon, itemM, litColon, itemS] (pad h 2 ++ 58 :: (pad mi 2 ++ 58 :: (pad s 2 ++ rest))) =
+      some ([(.H, pad h 2), (.none, [58]), (.M, pad mi 2), (.none, [58]), (.S, pad s 2)], rest) :=
+  H_field h hh _ _ _ _ (colon_field _ _ _ _ (M_field mi hm _ _ _ _
+    (colon_field _ _ _ _ (S_field s hs _ _ _ _ (matchItems_nil rest)))))
+
+/-- `HH:MM:SS.ffffff` -/
+theorem match_HMSf (h mi s us : Nat) (hh : h < 24) (hm : mi < 60) (hs : s < 60) (hus : us < 1000000) :
+    matchItems [itemH, litColon, itemM, litColon, itemS, litDot, itemf]
+        (pad h 2 ++ 58 :: (pad mi 2 ++ 58 :: (pad s 2 ++ 46 :: (pad us 6 ++ [])))) =
+      some ([(.H, pad h 2), (.none, [58]), (.M, pad mi 2), (.none, [58]), (.S, pad s 2), (.none, [46]),
+        (.f, pad us 6)], []) :=
+  H_field h hh _ _ _ _ (colon_field _ _ _ _ (M_field mi hm _ _ _ _
+    (colon_field _ _ _ _ (S_field s hs _ _ _ _ (dot_field _ _ _ _ (f_field us hus _ _ _ _ (matchItems_nil [])))))))
+
+/-- what `strptime` makes of captured clock fields (no date fields: 1900-01-01) -/
+theorem strptime_HM (h mi : Nat) (hh : h < 24) (hm : mi < 60) :
+    strptime (pad h 2 ++ 58 :: pad mi 2) fmtHM = some ⟨1900, 1, 1, h, mi, 0, 0⟩ := by
+  unfold strptime
+  rw [compile_HM]
+  have := match_HM h mi hh hm []
+  simp only [List.append_nil] at this
+  simp only [this]
+  simp [field?, List.find?, field_beq, natOf_pad, daysInMonth]
+
+theorem strptime_HM_more (h mi : Nat) (hh : h < 24) (hm : mi < 60) (c : Nat) (rest : Str) :
+    strptime (pad h 2 ++ 58 :: (pad mi 2 ++ c :: rest)) fmtHM = none := by
+  unfold strptime
+  rw [compile_HM]
+  simp [match_HM h mi hh hm (c :: rest)]
+
+theorem strptime_HMS (h mi s : Nat) (hh : h < 24) (hm : mi < 60) (hs : s < 60) :
+    strptime (pad h 2 ++ 58 :: (pad mi 2 ++ 58 :: pad s 2)) fmtHMS = some ⟨1900, 1, 1, h, mi, s, 0⟩ := by
+  unfold strptime
+  rw [compile_HMS]
+  have := match_HMS h mi s hh hm hs []
+  simp only [List.append_nil] at this
+  simp only [this]
+  have e : ¬ s > 59 := by omega
+  simp [field?, List.find?, field_beq, natOf_pad, daysInMonth, e]
+
+theorem strptime_HMS_more (h mi s : Nat) (hh : h < 24) (hm : mi < 60) (hs : s < 60) (c : Nat) (rest : Str) :
+    strptime (pad h 2 ++ 58 :: (pad mi 2 ++ 58 :: (pad s 2 ++ c :: rest))) fmtHMS = none := by
+  unfold strptime
+  rw [compile_HMS]
+  simp [match_HMS h mi s hh hm hs (c :: rest)]
+
+theorem strptime_HMSf (h mi s us : Nat) (hh : h < 24) (hm : mi < 60) (hs : s < 60) (hus : us < 1000000) :
+    strptime (pad h 2 ++ 58 :: (pad mi 2 ++ 58 :: (pad s 2 ++ 46 :: pad us 6))) fmtHMSf =
+      some ⟨1900, 1, 1, h, mi, s, us⟩ := by
+  unfold strptime
+  rw [compile_HMSf]
+  have := match_HMSf h mi s us hh hm hs hus
+  simp only [List.append_nil] at this
+  simp only [this]
+  have e : ¬ s > 59 := by omega
+  have hl := length_pad us 6 (by omega) (by omega)
+  simp [field?, List.find?, field_beq, natOf_pad, daysInMonth, e, hl]
+
+end Pvl
+
+namespace Pvl
+open Py Enc
+
+/-- a format that begins with `%Y` cannot match a text whose third character is `:` -/
+theorem strptime_Y_fails (c1 c2 : Nat) (t f' : Str) :
+    strptime (c1 :: c2 :: 58 :: t) (37 :: 89 :: f') = none := by
+  unfold strptime
+  cases hc : compileFmt f' with
+  | none => simp [compileFmt, hc]
+  | some rest =>
+    have hcomp : compileFmt (37 :: 89 :: f') = some (itemY :: rest) := by simp [compileFmt, hc]
+    rw [hcomp]
+    have hm : matchItems (itemY :: rest) (c1 :: c2 :: 58 :: t) = none := by
+      rw [matchItems_cons]
+      unfold itemY
+      rw [matchAlts_skip _ _ _ _ _ (by
+        have : Py.isDecimal 58 = false := by decide
+        simp [matchCCs, CC.ok, this])]
+      rw [matchAlts]
+    simp [hm]
+
+/-- what the model needs of a grammar's format tables for the time theorems (evaluated on the generated
+    tables): every date format begins with `%Y`, the first three time formats are `%H:%M`, `%H:%M:%S`,
+    `%H:%M:%S.%f` -/
+def TimeTablesOK (g : Grammar) : Bool :=
+  g.dateFormats.all (fun f => f.take 2 == [37, 89]) &&
+  g.timeFormats.take 3 == [fmtHM, fmtHMS, fmtHMSf]
+
+theorem firstSome_none {α β} (f : α → Option β) (l : List α) (h : ∀ a ∈ l, f a = none) :
+    firstSome f l = none := by
+  induction l with
+  | nil => rfl
+  | cons a r ih => simp [firstSome, h a (by simp), ih (fun x hx => h x (by simp [hx]))]
+
+theorem dates_fail (g : Grammar) (hg : TimeTablesOK g = true) (c1 c2 : Nat) (t : Str) :
+    firstSome (strptime (c1 :: c2 :: 58 :: t)) g.dateFormats = none := by
+  apply firstSome_none
+  intro f hf
+  simp only [TimeTablesOK, Bool.and_eq_true, List.all_eq_true] at hg
+  have h2 := hg.1 f hf
+  match f, h2 with
+  | 37 :: 89 :: f', _ => exact strptime_Y_fails c1 c2 t f'
+  | [], h2 => simp at h2
+  | [_], h2 => simp at h2
+  | a :: b :: f', h2 =>
+    simp at h2
+    obtain ⟨rfl, rfl⟩ := h2
+    exact strptime_Y_fails c1 c2 t f'
+
+/-- the zone `decode_datetime` attaches to a time without `Z`: UTC where the dialect says so -/
+def defaultTz (g : Grammar) : Option Int := if g.defaultUtc then some 0 else none
+
+/-- a clock time `datetime.time` admits -/
+def ValidTime (h mi s us : Nat) : Prop := h < 24 ∧ mi < 60 ∧ s < 60 ∧ us < 1000000
+
+theorem pad2_cons (n : Nat) (h : n < 100) (rest : Str) :
+    pad n 2 ++ rest = (48 + n / 10) :: (48 + n % 10) :: rest := by
+  rw [pad2 n h]; rfl
+
+/-- the seconds part of `encode_time` -/
+def timeTail (s us : Nat) : Str :=
+  if us != 0 then 58 :: (pad s 2 ++ 46 :: pad us 6) else if s != 0 then 58 :: pad s 2 else []
+
+theorem encodeTimeBase_eq (h mi s us : Nat) :
+    encodeTimeBase h mi s us = pad h 2 ++ 58 :: (pad mi 2 ++ timeTail s us) := by
+  unfold encodeTimeBase timeTail
+  split <;> (try split) <;> simp
+
+theorem endsWith_digits (X p : Str) (hp : p ≠ []) (hd : AllDigits p) : endsWith (X ++ p) [90] = false := by
+  unfold endsWith
+  simp only [List.reverse_append]
+  cases hr : p.reverse with
+  | nil => simp at hr; exact absurd hr hp
+  | cons c q =>
+    have hc : c ∈ p := by
+      have : c ∈ p.reverse := by rw [hr]; simp
+      simpa using this
+    have := hd c hc
+    simp only [isDigit, Bool.and_eq_true, decide_eq_true_eq] at this
+    have hne : c ≠ 90 := by omega
+    simp [startsWith, hne]
+
+theorem encodeTimeBase_noZ (h mi s us : Nat) : endsWith (encodeTimeBase h mi s us) [90] = false := by
+  rw [encodeTimeBase_eq]
+  unfold timeTail
+  split
+  · have : pad h 2 ++ 58 :: (pad mi 2 ++ 58 :: (pad s 2 ++ 46 :: pad us 6)) =
+        (pad h 2 ++ 58 :: (pad mi 2 ++ 58 :: (pad s 2 ++ [46]))) ++ pad us 6 := by simp
+    rw [this]; exact endsWith_digits _ _ (pad_ne_nil us 6) (allDigits_pad us 6)
+  · split
+    · have : pad h 2 ++ 58 :: (pad mi 2 ++ 58 :: pad s 2) = (pad h 2 ++ 58 :: (pad mi 2 ++ [58])) ++ pad s 2 := by
+        simp
+      rw [this]; exact endsWith_digits _ _ (pad_ne_nil s 2) (allDigits_pad s 2)
+    · have : pad h 2 ++ 58 :: (pad mi 2 ++ []) = (pad h 2 ++ [58]) ++ pad mi 2 := by simp
+      rw [this]; exact endsWith_digits _ _ (pad_ne_nil mi 2) (allDigits_pad mi 2)
+
+/-- **`PVLDecoder.decode_datetime` reads what `PVLEncoder.encode_time` writes** (no zone designator in
+    the text: the dialect's default zone is attached) -/
+theorem decodeDatetimeBase_time (g : Grammar) (hg : TimeTablesOK g = true) (h mi s us : Nat)
+    (hv : ValidTime h mi s us) :
+    decodeDatetimeBase g (encodeTimeBase h mi s us) = some (.time h mi s us (defaultTz g)) := by
+  obtain ⟨hh, hm, hs, hus⟩ := hv
+  have htf : ∃ r, g.timeFormats = fmtHM :: fmtHMS :: fmtHMSf :: r := by
+    simp only [TimeTablesOK, Bool.and_eq_true, beq_iff_eq] at hg
+    have h3 := hg.2
+    match hl : g.timeFormats, h3 with
+    | a :: b :: c :: r, h3 =>
+      simp at h3
+      obtain ⟨rfl, rfl, rfl⟩ := h3
+      exact ⟨r, rfl⟩
+    | [], h3 => simp at h3
+    | [_], h3 => simp at h3
+    | [_, _], h3 => simp at h3
+  obtain ⟨r, htf⟩ := htf
+  have hz := encodeTimeBase_noZ h mi s us
+  unfold decodeDatetimeBase
+  have hdates : firstSome (strptime (encodeTimeBase h mi s us)) g.dateFormats = none := by
+    rw [encodeTimeBase_eq, pad2_cons h (by omega)]
+    exact dates_fail g hg _ _ _
+  rw [hdates]
+  simp only [hz, Bool.false_eq_true, if_false]
+  rw [htf, encodeTimeBase_eq]
+  unfold timeTail
+  by_cases h1 : us = 0
+  · by_cases h2 : s = 0
+    · subst h1 h2
+      simp [firstSome, strptime_HM h mi hh hm, defaultTz]
+    · subst h1
+      have hsne : (s != 0) = true := by simp [h2]
+      simp only [bne_self_eq_false, Bool.false_eq_true, if_false, hsne, if_true]
+      have e1 := strptime_HM_more h mi hh hm 58 (pad s 2)
+      have e2 := strptime_HMS h mi s hh hm hs
+      simp [firstSome, e1, e2, defaultTz]
+  · have hune : (us != 0) = true := by simp [h1]
+    simp only [hune, if_true]
+    have e1 := strptime_HM_more h mi hh hm 58 (pad s 2 ++ 46 :: pad us 6)
+    have e2 := strptime_HMS_more h mi s hh hm hs 46 (pad us 6)
+    have e3 := strptime_HMSf h mi s us hh hm hs hus
+    simp [firstSome, e1, e2, e3, defaultTz]
+
+end Pvl
